@@ -374,6 +374,60 @@ def diff_snapshots(rs, is_):
 
 TIMED_AREAS = ("time", "set", "regiontime")
 
+_SRC_BY_VALUE = {("C", 255, 0, 0, 255): "s1", ("C", 0, 128, 0, 255): "s2", ("C", 0, 0, 255, 255): "s3", ("C", 255, 255, 0, 255): "inline",
+                 ("C", 0, 255, 255, 255): "n1", ("C", 128, 0, 128, 255): "n2"}
+_SRC_BY_PROP = {"FontStyle": "s1", "FontWeight": "s2", "TextAlign": "s3", "BackgroundColor": "n1"}
+
+
+def _find_tg(snap):
+  regs, body = snap
+  stack = list(regs) + ([body] if body is not None else [])
+  while stack:
+    n = stack.pop(0)
+    if n[0] == "text":
+      continue
+    if n[1] == "tg":
+      return n
+    stack.extend(n[5])
+  return None
+
+
+def graph_disc(case, rs, is_):
+  """names a styling mismatch of the F-graph family by the ROLE of the source that should have won and of the one
+  that did: inline, nested-first/last, ref-first/last/only, chained, nested-ref, absent"""
+  root = ET.fromstring(case["xml"])
+  tgt = next(e for e in root.iter() if e.attrib.get(R.q(R.NS_XML, "lang")) == "tg")
+  erefs = (tgt.attrib.get("style") or "").split()
+  nested = [c for c in tgt if c.tag == R.T_STYLE]
+  nested_refs = [r for n in nested for r in (n.attrib.get("style") or "").split()]
+
+  def role(src):
+    if src is None:
+      return "absent"
+    if src == "inline":
+      return "inline"
+    if src in ("n1", "n2"):
+      return "nested-only" if len(nested) == 1 else ("nested-first" if src == "n1" else "nested-last")
+    if src in erefs:
+      return "ref-only" if len(erefs) == 1 else ("ref-last" if erefs[-1] == src else "ref-first")
+    if src in nested_refs:
+      return "nested-ref"
+    return "chained"
+  a, b = _find_tg(rs), _find_tg(is_)
+  if a is None or b is None:
+    return "target-missing"
+  da, db = dict(a[4]), dict(b[4])
+  out = []
+  for p in sorted(set(da) | set(db)):
+    if da.get(p) == db.get(p):
+      continue
+    if p == "Color":
+      out.append(f"conflict:want={role(_SRC_BY_VALUE.get(da.get(p)))},got={role(_SRC_BY_VALUE.get(db.get(p)))}")
+    else:
+      src = _SRC_BY_PROP.get(p)
+      out.append(f"unique:want={role(src) if p in da else 'absent'},got={role(src) if p in db else 'absent'}")
+  return ";".join(sorted(set(out)))
+
 
 def compare(case, rdoc, rc, ic, raw, acc):
   """reports every clause that fails; returns the number of violations"""
@@ -388,7 +442,7 @@ def compare(case, rdoc, rc, ic, raw, acc):
       acc.violation(clause, d or name, case, observed=got, expected=want, note=f"document parameter {name}")
       nv += 1
   if rc["initials"] != ic["initials"]:
-    acc.violation("C04.initial", d or "initial", case, observed=ic["initials"], expected=rc["initials"])
+    acc.violation(case["clause"] if case.get("area") == "value" else "C04.initial", d or "initial", case, observed=ic["initials"], expected=rc["initials"])
     nv += 1
   if rc["regions"] == ic["regions"] and rc["body"] == ic["body"]:
     return nv
@@ -405,6 +459,9 @@ def compare(case, rdoc, rc, ic, raw, acc):
       clause, disc = "C04.lang", d or "lang"
     elif aspect == "space":
       clause, disc = "C04.space", d or "space"
+    if case.get("area") == "graph" and aspect == "styles" and case.get("clause") != "C04.style.nested.chain":
+      disc = graph_disc(case, rs, is_)
+      clause = "C04.style.chain" if "chained" in disc else "C04.style.precedence"
     if case.get("area") in TIMED_AREAS:
       lc = local_check(rdoc, raw)
       if lc is not None:
